@@ -53,6 +53,9 @@ PATTERNS = [
     (r"^\d*$", ["", "123", "\n"], ["a", "1a"]),
     ("a{0,2}b", ["b", "ab", "aab", "aaab"], ["a", ""]),
     ("[ab][^ab]", ["ac", "b1"], ["ab", "a", "cc"]),
+    (r"^[^\w\d]{1,3}$", ["-", " !"], ["a", "_", "", "-_"]),
+    (r"[^\d]x", ["ax", "_x"], ["1x", "x"]),
+    (r"^[^\w]+\Z", ["-+", "!"], ["_", "a-", ""]),
 ]
 UUIDS = [uuid.UUID(int=5, version=4), uuid.UUID("886313e1-3b8a-4372-9b90-0c9aee199e5d"),
          uuid.UUID(int=2 ** 127 + 12345, version=4)]
